@@ -53,6 +53,9 @@ def tsOf (j : Json) : Ts :=
   match j.getInt? with
   | .ok n => .int n
   | _ =>
+    match getBool? j "$bool" with
+    | some b => .bool b
+    | none =>
     let r := getStrD j "$float"
     match getInt? j "int" with
     | some n => .float r (.ok n)
@@ -62,6 +65,7 @@ def jts : Ts → Json
   | .int n => jint n
   | .float r (.ok n) => Json.mkObj [("$float", jstr r), ("int", jint n)]
   | .float r (.error e) => Json.mkObj [("$float", jstr r), ("int_err", Json.str e.name)]
+  | .bool b => Json.mkObj [("$bool", Json.bool b)]
 
 instance : Inhabited Variant := ⟨.mk [] [] [] [] [] [] []⟩
 
